@@ -77,6 +77,8 @@ struct LocalCfg {
     shards: usize,
     /// L2 only: per-family prefix limit of PREFIX_LIMIT on IPv4
     prefix_limit: bool,
+    /// Add-Path receive configured for both families (the remote speaker then advertises send)
+    addpath: bool,
 }
 
 /// What the remote speaker advertises in one OPEN.
@@ -169,6 +171,43 @@ enum Op {
     ExpireLlgr {
         fam: usize,
     },
+    /// Announce one path of a prefix: Add-Path path id (ids > 0 need Add-Path on the
+    /// session) and a rank (AS_PATH length 3 - rank: 2 = best, 0 = worst), so that a
+    /// re-announced path can rank before or after a stale sibling of the same prefix.
+    /// `Announce` = path id 0, rank 2.
+    AnnouncePath {
+        fam: usize,
+        pfx: u8,
+        pid: u32,
+        rank: u8,
+        kind: AttrKind,
+    },
+    WithdrawPath {
+        fam: usize,
+        pfx: u8,
+        pid: u32,
+    },
+}
+
+impl Op {
+    /// the plain forms expressed as the per-path ones
+    fn normalized(&self) -> Op {
+        match self {
+            Op::Announce { fam, pfx, kind } => Op::AnnouncePath {
+                fam: *fam,
+                pfx: *pfx,
+                pid: 0,
+                rank: 2,
+                kind: *kind,
+            },
+            Op::Withdraw { fam, pfx } => Op::WithdrawPath {
+                fam: *fam,
+                pfx: *pfx,
+                pid: 0,
+            },
+            o => o.clone(),
+        }
+    }
 }
 
 impl Op {
@@ -197,6 +236,10 @@ impl Op {
             Op::LateLlgr { .. } => "late-llgr-expiry",
             Op::ExpireRestart => "restart-timer-natural",
             Op::ExpireLlgr { .. } => "llgr-timer-natural",
+            Op::AnnouncePath { pid: 0, .. } => "announce",
+            Op::AnnouncePath { .. } => "announce-extra-path-id",
+            Op::WithdrawPath { pid: 0, .. } => "withdraw",
+            Op::WithdrawPath { .. } => "withdraw-extra-path-id",
         }
     }
 }
@@ -207,12 +250,16 @@ impl Op {
 struct PathObs {
     fam: usize,
     pfx: u8,
+    /// Add-Path path id received from the peer
+    pid: u32,
     /// MED of the path = epoch * 1000 + seq
     tag: u32,
     stale: bool,
     llgr_stale: bool,
     no_llgr: bool,
     llgr_comm: bool,
+    /// position among the peer's paths of this destination, as the RIB ranks them (0 = best)
+    pos: u8,
 }
 
 #[derive(Clone, Debug, PartialEq)]
@@ -230,9 +277,14 @@ impl Obs {
             .iter()
             .map(|p| {
                 format!(
-                    "{}/{}@{}{}{}{}{}",
+                    "{}/{}{}@{}{}{}{}{}",
                     FNAME[p.fam],
                     p.pfx,
+                    if p.pid != 0 {
+                        format!("#{}", p.pid)
+                    } else {
+                        String::new()
+                    },
                     p.tag,
                     if p.stale { ":stale" } else { "" },
                     if p.llgr_stale { ":llgr-stale" } else { "" },
@@ -273,7 +325,7 @@ fn observe(tables: &TableHandle, ctx: &Arc<std::sync::Mutex<PeerContext>>, addr:
             if pfx == SENTINEL {
                 continue;
             }
-            for p in d.paths {
+            for (pos, p) in d.paths.into_iter().enumerate() {
                 let tag = p
                     .attr
                     .iter()
@@ -283,11 +335,13 @@ fn observe(tables: &TableHandle, ctx: &Arc<std::sync::Mutex<PeerContext>>, addr:
                 paths.push(PathObs {
                     fam: fi,
                     pfx,
+                    pid: p.remote_path_id,
                     tag,
                     stale: p.stale,
                     llgr_stale: p.source.is_llgr_stale(),
                     no_llgr: has_comm(&p.attr, 0xffff_0007),
                     llgr_comm: has_comm(&p.attr, 0xffff_0006),
+                    pos: pos as u8,
                 });
             }
         }
@@ -420,8 +474,8 @@ struct Live {
     nbit: bool,
     llgr: FSet,
     eor_seen: FSet,
-    /// (family, prefix) -> (tag, kind) announced on this session and not withdrawn
-    announced: BTreeMap<(usize, u8), (u32, AttrKind)>,
+    /// (family, prefix, path id) -> (tag, kind) announced on this session and not withdrawn
+    announced: BTreeMap<(usize, u8, u32), (u32, AttrKind)>,
     seq: u32,
 }
 
@@ -437,12 +491,14 @@ enum Ev {
     Announced {
         fam: usize,
         pfx: u8,
+        pid: u32,
         tag: u32,
         kind: AttrKind,
     },
     Withdrawn {
         fam: usize,
         pfx: u8,
+        pid: u32,
     },
     Eor {
         fam: usize,
@@ -537,6 +593,31 @@ impl Model {
         self.is_old(p) || p.stale || p.llgr_stale
     }
 
+    /// Coverage: destinations of `fam` that hold, at the moment of a purge, both a fresh
+    /// path of the live session and a stale sibling (another path id) of an earlier one,
+    /// and which of the two the RIB ranks first.
+    fn count_mixed_siblings(&self, pre: &Obs, fam: usize, st: &mut Stats) {
+        let mut by_pfx: BTreeMap<u8, Vec<&PathObs>> = BTreeMap::new();
+        for p in pre.paths.iter().filter(|p| p.fam == fam) {
+            by_pfx.entry(p.pfx).or_default().push(p);
+        }
+        for ps in by_pfx.values() {
+            let fresh = ps.iter().filter(|p| !self.stale_like(p)).map(|p| p.pos).min();
+            let stale = ps.iter().filter(|p| self.stale_like(p)).map(|p| p.pos).min();
+            if let (Some(f), Some(s)) = (fresh, stale) {
+                let k = "addpath:destinations-with-fresh-and-stale-siblings-at-purge";
+                st.add(k);
+                st.add(&format!("{}:{}", k, if f < s { "fresh-ranks-first" } else { "stale-ranks-first" }));
+                if ps.iter().any(|p| p.llgr_stale) {
+                    st.add(&format!("{}:llgr-stale-sibling", k));
+                }
+                if ps.iter().any(|p| p.no_llgr && self.stale_like(p)) {
+                    st.add(&format!("{}:no-llgr-stale-sibling", k));
+                }
+            }
+        }
+    }
+
     fn step(&mut self, ev: &Ev, pre: &Obs, post: &Obs, st: &mut Stats) -> Vec<Finding> {
         let mut out: Vec<Finding> = Vec::new();
         let mut skip_i1: FSet = 0;
@@ -603,20 +684,28 @@ impl Model {
             Ev::Announced {
                 fam,
                 pfx,
+                pid,
                 tag,
                 kind,
             } => {
                 label = "announce".into();
                 check_i5 = false;
                 if let Some(l) = self.live.as_mut() {
-                    l.announced.insert((*fam, *pfx), (*tag, *kind));
+                    l.announced.insert((*fam, *pfx, *pid), (*tag, *kind));
+                }
+                if *pid != 0 {
+                    st.add("addpath:extra-path-id-announced");
+                }
+                // a fresh path beside a stale sibling (other path id) of the same prefix
+                if post.paths.iter().any(|p| p.fam == *fam && p.pfx == *pfx && p.pid != *pid && self.stale_like(p)) {
+                    st.add("addpath:fresh-path-beside-stale-sibling");
                 }
             }
-            Ev::Withdrawn { fam, pfx } => {
+            Ev::Withdrawn { fam, pfx, pid } => {
                 label = "withdraw".into();
                 check_i5 = false;
                 if let Some(l) = self.live.as_mut() {
-                    l.announced.remove(&(*fam, *pfx));
+                    l.announced.remove(&(*fam, *pfx, *pid));
                 }
             }
             Ev::Eor { fam } => {
@@ -624,6 +713,7 @@ impl Model {
                 if let Some(l) = self.live.as_mut() {
                     l.eor_seen |= 1 << fam;
                 }
+                self.count_mixed_siblings(pre, *fam, st);
                 let had = pre
                     .paths
                     .iter()
@@ -895,12 +985,12 @@ impl Model {
 
         // I5: paths announced on the live session are never removed by a purge
         if check_i5 && let Some(l) = &self.live {
-            for ((f, pfx), (tag, kind)) in &l.announced {
+            for ((f, pfx, pid), (tag, kind)) in &l.announced {
                 st.add("I5:judged");
                 if !post
                     .paths
                     .iter()
-                    .any(|p| p.fam == *f && p.pfx == *pfx && p.tag == *tag)
+                    .any(|p| p.fam == *f && p.pfx == *pfx && p.pid == *pid && p.tag == *tag)
                 {
                     out.push(Finding {
                         clause: "I5",
@@ -911,8 +1001,8 @@ impl Model {
                             "reannounced-path-lost".into()
                         },
                         detail: format!(
-                            "path {}/{} tag {} announced on the live session is gone",
-                            FNAME[*f], pfx, tag
+                            "path {}/{} path-id {} tag {} announced on the live session is gone",
+                            FNAME[*f], pfx, pid, tag
                         ),
                     });
                     break;
@@ -1109,11 +1199,21 @@ fn nexthop(fam: usize) -> bgp::Nexthop {
 }
 
 fn mk_attrs(tag: u32, kind: AttrKind) -> Arc<Vec<packet::Attribute>> {
+    mk_attrs_rank(tag, kind, 2)
+}
+
+/// rank 2 = AS_PATH of length 1 (best), 1 = length 2, 0 = length 3 (worst); nothing else the
+/// RIB ranks on differs between two paths of the peer, and a stale path loses a tie
+fn mk_attrs_rank(tag: u32, kind: AttrKind, rank: u8) -> Arc<Vec<packet::Attribute>> {
     let mut v = vec![
         packet::Attribute::new_with_value(packet::Attribute::ORIGIN, 0).unwrap(),
         {
-            let mut b = vec![2u8, 1u8];
+            let len = 3 - rank.min(2);
+            let mut b = vec![2u8, len];
             b.extend_from_slice(&REMOTE_ASN.to_be_bytes());
+            for k in 1..len {
+                b.extend_from_slice(&(64900u32 + k as u32).to_be_bytes());
+            }
             packet::Attribute::new_with_bin(packet::Attribute::AS_PATH, b).unwrap()
         },
         packet::Attribute::new_with_value(packet::Attribute::MULTI_EXIT_DESC, tag).unwrap(),
@@ -1131,12 +1231,18 @@ fn mk_attrs(tag: u32, kind: AttrKind) -> Arc<Vec<packet::Attribute>> {
     Arc::new(v)
 }
 
-fn spec_caps(spec: &CapSpec) -> Vec<packet::Capability> {
+fn spec_caps(spec: &CapSpec, addpath: bool) -> Vec<packet::Capability> {
     let mut v = Vec::new();
     for f in fset_vec(spec.mp) {
         v.push(packet::Capability::MultiProtocol(f));
     }
     v.push(packet::Capability::FourOctetAsNumber(REMOTE_ASN));
+    if addpath {
+        // RFC 7911 mode 2: the remote speaker sends several paths per prefix
+        v.push(packet::Capability::AddPath(
+            fset_vec(spec.mp).into_iter().map(|f| (f, 2u8)).collect(),
+        ));
+    }
     if let Some((fams, nbit, fbits)) = spec.gr {
         v.push(packet::Capability::GracefulRestart {
             flags: if nbit { 0x4 } else { 0 },
@@ -1174,9 +1280,15 @@ fn local_gr_cfg(cfg: &LocalCfg) -> (Option<GrPeerConfig>, Option<LlgrPeerConfig>
 }
 
 fn local_families() -> FnvHashMap<Family, u8> {
+    local_families_ap(false)
+}
+
+/// Add-Path mode 1 = the daemon receives several paths per prefix
+fn local_families_ap(addpath: bool) -> FnvHashMap<Family, u8> {
     let mut m = FnvHashMap::default();
-    m.insert(Family::IPV4, 0u8);
-    m.insert(Family::IPV6, 0u8);
+    let mode = if addpath { 1u8 } else { 0u8 };
+    m.insert(Family::IPV4, mode);
+    m.insert(Family::IPV6, mode);
     m
 }
 
@@ -1244,6 +1356,8 @@ type StepResult = Result<Option<Ev>, HErr>;
 struct L1Live {
     sess: PeerSession,
     fams: FSet,
+    /// families on which the daemon receives Add-Path path ids from the peer
+    addpath_rx: FSet,
     epoch: u32,
     seq: u32,
 }
@@ -1257,6 +1371,7 @@ struct L1World {
     live: Option<L1Live>,
     epochs: u32,
     ts: u32,
+    addpath: bool,
 }
 
 impl L1World {
@@ -1266,7 +1381,7 @@ impl L1World {
         let local_cap = PeerParams::build_local_cap(
             addr,
             LOCAL_ASN,
-            &local_families(),
+            &local_families_ap(cfg.addpath),
             gr.as_ref(),
             llgr.as_ref(),
         );
@@ -1297,6 +1412,7 @@ impl L1World {
             live: None,
             epochs: 0,
             ts: 1,
+            addpath: cfg.addpath,
         }
     }
 
@@ -1325,6 +1441,7 @@ impl L1World {
 
     async fn apply(&mut self, op: &Op) -> StepResult {
         self.ts += 1;
+        let op = &op.normalized();
         match op {
             Op::Connect { spec, outcome } => {
                 if self.live.is_some() || spec.mp == 0 {
@@ -1359,7 +1476,7 @@ impl L1World {
                     }));
                 }
                 // what apply_outputs does for Output::SessionNegotiated / SessionEstablished
-                let remote_caps = spec_caps(spec);
+                let remote_caps = spec_caps(spec, self.addpath);
                 sess.codec = bgp::PeerCodec::negotiate(&sess.local_cap, &remote_caps);
                 sess.negotiated_gr = sess.negotiate_gr(&remote_caps);
                 sess.negotiated_llgr = sess.negotiate_llgr(&remote_caps);
@@ -1385,26 +1502,43 @@ impl L1World {
                         )),
                     );
                 }
-                let rx = self
-                    .tables
-                    .register_peer(self.addr, FnvHashSet::default(), |_| {});
+                // on_established: the families with Add-Path receive negotiated
+                let mut addpath = FnvHashSet::default();
+                let mut addpath_rx: FSet = 0;
+                for f in &fams {
+                    if sess.codec.family_state(*f).is_some_and(|st| st.addpath_rx) {
+                        addpath.insert(*f);
+                        if let Some(i) = fidx(*f) {
+                            addpath_rx |= 1 << i;
+                        }
+                    }
+                }
+                let rx = self.tables.register_peer(self.addr, addpath, |_| {});
                 sess.peer_event_rx = Some(UnboundedReceiverStream::new(rx));
                 sess.process_effects(effects, &self.global).await;
                 self.epochs += 1;
                 self.live = Some(L1Live {
                     sess,
                     fams: fset,
+                    addpath_rx,
                     epoch: self.epochs,
                     seq: 0,
                 });
                 Ok(Some(Ev::Established { spec: *spec }))
             }
-            Op::Announce { fam, pfx, kind } => {
+            Op::Announce { .. } | Op::Withdraw { .. } => unreachable!("normalized"),
+            Op::AnnouncePath {
+                fam,
+                pfx,
+                pid,
+                rank,
+                kind,
+            } => {
                 let ts = self.ts;
                 let Some(l) = self.live.as_mut() else {
                     return Ok(None);
                 };
-                if !has(l.fams, *fam) {
+                if !has(l.fams, *fam) || (*pid != 0 && !has(l.addpath_rx, *fam)) {
                     return Ok(None);
                 }
                 l.seq += 1;
@@ -1414,38 +1548,46 @@ impl L1World {
                 self.tables.insert_route(
                     source,
                     FAMS[*fam],
-                    packet::PathNlri::new(nlri(*fam, *pfx)),
+                    packet::PathNlri {
+                        path_id: *pid,
+                        nlri: nlri(*fam, *pfx),
+                    },
                     Some(nexthop(*fam)),
-                    mk_attrs(tag, *kind),
+                    mk_attrs_rank(tag, *kind, *rank),
                     None,
                     ts,
                 );
                 Ok(Some(Ev::Announced {
                     fam: *fam,
                     pfx: *pfx,
+                    pid: *pid,
                     tag,
                     kind: *kind,
                 }))
             }
-            Op::Withdraw { fam, pfx } => {
+            Op::WithdrawPath { fam, pfx, pid } => {
                 let ts = self.ts;
                 let Some(l) = self.live.as_mut() else {
                     return Ok(None);
                 };
-                if !has(l.fams, *fam) {
+                if !has(l.fams, *fam) || (*pid != 0 && !has(l.addpath_rx, *fam)) {
                     return Ok(None);
                 }
                 let source = l.sess.source[&FAMS[*fam]].clone();
                 self.tables.remove_route(
                     source,
                     FAMS[*fam],
-                    packet::PathNlri::new(nlri(*fam, *pfx)),
+                    packet::PathNlri {
+                        path_id: *pid,
+                        nlri: nlri(*fam, *pfx),
+                    },
                     None,
                     ts,
                 );
                 Ok(Some(Ev::Withdrawn {
                     fam: *fam,
                     pfx: *pfx,
+                    pid: *pid,
                 }))
             }
             Op::Eor { fam } => {
@@ -1927,7 +2069,7 @@ impl<'a> L2World<'a> {
         if cfg.prefix_limit {
             prefix_limits.insert(Family::IPV4, PREFIX_LIMIT);
         }
-        let mut families = local_families();
+        let mut families = local_families_ap(cfg.addpath);
         if let Some(lc) = limit {
             prefix_limits.clear();
             prefix_limits.insert(FAMS[lc.fam], lc.max);
@@ -2017,7 +2159,7 @@ impl<'a> L2World<'a> {
     }
 
     async fn connect(&mut self, spec: &CapSpec) -> Result<L2Live, HErr> {
-        self.connect_caps(spec_caps(spec), spec.mp & 0b11, true)
+        self.connect_caps(spec_caps(spec, self.cfg.addpath), spec.mp & 0b11, true)
             .await
     }
 
@@ -2074,16 +2216,17 @@ impl<'a> L2World<'a> {
         })
     }
 
-    fn open_msg(spec: &CapSpec) -> bgp::Message {
+    fn open_msg(spec: &CapSpec, addpath: bool) -> bgp::Message {
         bgp::Message::Open(bgp::Open {
             as_number: REMOTE_ASN,
             holdtime: HoldTime::new(90).unwrap(),
             router_id: u32::from(Ipv4Addr::new(10, 0, 0, 1)),
-            capability: spec_caps(spec),
+            capability: spec_caps(spec, addpath),
         })
     }
 
     async fn apply(&mut self, op: &Op) -> StepResult {
+        let op = &op.normalized();
         match op {
             Op::Connect { spec, outcome } => {
                 if self.live.is_some() || spec.mp == 0 {
@@ -2104,7 +2247,7 @@ impl<'a> L2World<'a> {
                         Ok(Some(Ev::ReconnectFail { after_open: false }))
                     }
                     ConnOutcome::DieAfterOpen => {
-                        l.send(&Self::open_msg(spec)).await?;
+                        l.send(&Self::open_msg(spec, self.cfg.addpath)).await?;
                         // the daemon answers our OPEN with KEEPALIVE: it is in OpenConfirm now
                         l.read_until(
                             |l| l.opens > 0 && l.keepalives > 0,
@@ -2120,7 +2263,7 @@ impl<'a> L2World<'a> {
                         Ok(Some(Ev::ReconnectFail { after_open: true }))
                     }
                     ConnOutcome::Full => {
-                        l.send(&Self::open_msg(spec)).await?;
+                        l.send(&Self::open_msg(spec, self.cfg.addpath)).await?;
                         l.send(&bgp::Message::Keepalive).await?;
                         // initial End-of-RIB per session family, then a barrier so that
                         // process_effects(GrSessionEstablished) has run as well
@@ -2138,46 +2281,63 @@ impl<'a> L2World<'a> {
                     }
                 }
             }
-            Op::Announce { fam, pfx, kind } => {
+            Op::Announce { .. } | Op::Withdraw { .. } => unreachable!("normalized"),
+            Op::AnnouncePath {
+                fam,
+                pfx,
+                pid,
+                rank,
+                kind,
+            } => {
+                let addpath = self.cfg.addpath;
                 let Some(l) = self.live.as_mut() else {
                     return Ok(None);
                 };
-                if !has(l.fams, *fam) {
+                if !has(l.fams, *fam) || (*pid != 0 && !addpath) {
                     return Ok(None);
                 }
                 l.seq += 1;
                 let tag = l.epoch * 1000 + l.seq;
                 let msg = bgp::Message::Update(bgp::Update::Reach {
                     family: FAMS[*fam],
-                    entries: vec![packet::PathNlri::new(nlri(*fam, *pfx))],
+                    entries: vec![packet::PathNlri {
+                        path_id: *pid,
+                        nlri: nlri(*fam, *pfx),
+                    }],
                     nexthop: Some(nexthop(*fam)),
-                    attr: mk_attrs(tag, *kind),
+                    attr: mk_attrs_rank(tag, *kind, *rank),
                 });
                 l.send(&msg).await?;
                 l.barrier(&self.tables, self.addr).await?;
                 Ok(Some(Ev::Announced {
                     fam: *fam,
                     pfx: *pfx,
+                    pid: *pid,
                     tag,
                     kind: *kind,
                 }))
             }
-            Op::Withdraw { fam, pfx } => {
+            Op::WithdrawPath { fam, pfx, pid } => {
+                let addpath = self.cfg.addpath;
                 let Some(l) = self.live.as_mut() else {
                     return Ok(None);
                 };
-                if !has(l.fams, *fam) {
+                if !has(l.fams, *fam) || (*pid != 0 && !addpath) {
                     return Ok(None);
                 }
                 let msg = bgp::Message::Update(bgp::Update::Unreach {
                     family: FAMS[*fam],
-                    entries: vec![packet::PathNlri::new(nlri(*fam, *pfx))],
+                    entries: vec![packet::PathNlri {
+                        path_id: *pid,
+                        nlri: nlri(*fam, *pfx),
+                    }],
                 });
                 l.send(&msg).await?;
                 l.barrier(&self.tables, self.addr).await?;
                 Ok(Some(Ev::Withdrawn {
                     fam: *fam,
                     pfx: *pfx,
+                    pid: *pid,
                 }))
             }
             Op::Eor { fam } => {
@@ -2421,11 +2581,13 @@ async fn run_history(
             break;
         }
         let post = world.observe();
-        if let Ev::Announced { fam, pfx, tag, .. } = &ev
+        if let Ev::Announced {
+            fam, pfx, pid, tag, ..
+        } = &ev
             && !post
                 .paths
                 .iter()
-                .any(|p| p.fam == *fam && p.pfx == *pfx && p.tag == *tag)
+                .any(|p| p.fam == *fam && p.pfx == *pfx && p.pid == *pid && p.tag == *tag)
         {
             out.herr = Some(HErr::Harness(format!(
                 "announced path {}/{} tag {} is not in the Adj-RIB-In",
@@ -2490,6 +2652,7 @@ fn gen_cfg(rng: &mut Rng, layer: u8) -> LocalCfg {
         llgr: *rng.pick(&[0, 0, 0, 0b11, 0b11, 0b01, 0b10]),
         shards: *rng.pick(&[1usize, 2, 4]),
         prefix_limit: layer == 2 && rng.chance(1, 6),
+        addpath: rng.chance(1, 3),
     }
 }
 
@@ -2582,6 +2745,7 @@ fn gen_llgr_cycle(rng: &mut Rng, layer: u8) -> (LocalCfg, Vec<Op>) {
         llgr: *rng.pick(&[0b11u8, 0b11, 0b10, 0b01]),
         shards: *rng.pick(&[1usize, 2, 4]),
         prefix_limit: false,
+        addpath: false,
     };
     let spec = CapSpec {
         mp: 0b11,
@@ -2793,6 +2957,7 @@ fn gen_two_cycles(rng: &mut Rng, layer: u8) -> (LocalCfg, Vec<Op>) {
         llgr: *rng.pick(&[0b11u8, 0b11, 0b01, 0b10, 0]),
         shards: *rng.pick(&[1usize, 2, 4]),
         prefix_limit: false,
+        addpath: false,
     };
     let mk_spec = |rng: &mut Rng| CapSpec {
         mp: 0b11,
@@ -2918,7 +3083,113 @@ fn gen_two_cycles(rng: &mut Rng, layer: u8) -> (LocalCfg, Vec<Op>) {
     (cfg, ops)
 }
 
-fn gen_ops(rng: &mut Rng, layer: u8, len: usize) -> Vec<Op> {
+/// Directed skeleton: an Add-Path peer with several path ids per prefix goes through a
+/// GR (and, in half of the cases, LLGR) cycle and the new session re-announces only some
+/// of the ids, ranked before or after their stale siblings; one id may be withdrawn;
+/// then End-of-RIB per family, a second drop and the timers.
+fn gen_addpath_cycle(rng: &mut Rng, layer: u8) -> (LocalCfg, Vec<Op>) {
+    let cfg = LocalCfg {
+        gr: *rng.pick(&[0b11u8, 0b11, 0b11, 0b01]),
+        nbit: rng.bool(),
+        llgr: *rng.pick(&[0u8, 0, 0b11, 0b11, 0b01, 0b10]),
+        shards: *rng.pick(&[1usize, 2, 4]),
+        prefix_limit: false,
+        addpath: true,
+    };
+    let spec = CapSpec {
+        mp: 0b11,
+        gr: Some((*rng.pick(&[0b11u8, 0b11, 0b01, 0b10]), rng.bool(), 0)),
+        llgr: if cfg.llgr != 0 { *rng.pick(&[0b11u8, 0b11, 0b01, 0b10]) } else { 0 },
+    };
+    let mut ops = vec![Op::Connect { spec, outcome: ConnOutcome::Full }];
+    let mut held: Vec<(usize, u8, u32)> = Vec::new();
+    for f in 0..2 {
+        for p in 0..rng.range(1, 2) as u8 {
+            let n = rng.range(1, 3) as u32;
+            for pid in 0..n {
+                ops.push(Op::AnnouncePath { fam: f, pfx: p, pid, rank: rng.below(3) as u8, kind: gen_kind(rng) });
+                held.push((f, p, pid));
+            }
+        }
+        ops.push(Op::Eor { fam: f });
+    }
+    ops.push(Op::Drop { how: if rng.chance(5, 6) { DropHow::TcpRst } else { DropHow::TcpFin } });
+    match rng.below(6) {
+        0 | 1 => ops.push(Op::ExpireRestart), // reconnect from the LLGR period (or after the purge)
+        2 => {
+            ops.push(Op::ExpireRestart);
+            ops.push(Op::ExpireLlgr { fam: rng.usize(2) });
+        }
+        _ => {}
+    }
+    let spec2 = if rng.chance(4, 5) { spec } else { gen_spec(rng, None) };
+    ops.push(Op::Connect { spec: spec2, outcome: ConnOutcome::Full });
+    // the new session re-announces a part of the path ids, in random order and rank
+    rng.shuffle(&mut held);
+    let keep = rng.usize(held.len() + 1);
+    let mut fresh: Vec<(usize, u8, u32)> = Vec::new();
+    for (f, p, pid) in held.iter().take(keep) {
+        ops.push(Op::AnnouncePath { fam: *f, pfx: *p, pid: *pid, rank: rng.below(3) as u8, kind: gen_kind(rng) });
+        fresh.push((*f, *p, *pid));
+    }
+    if rng.chance(1, 3) {
+        // a path id the old session never used
+        ops.push(Op::AnnouncePath { fam: rng.usize(2), pfx: 0, pid: 3, rank: rng.below(3) as u8, kind: AttrKind::Plain });
+    }
+    if rng.chance(1, 3) && !fresh.is_empty() {
+        let (f, p, pid) = *rng.pick(&fresh);
+        ops.push(Op::WithdrawPath { fam: f, pfx: p, pid });
+    }
+    if rng.chance(1, 4) && !held.is_empty() {
+        // withdraw an id that is only there as a stale path
+        let (f, p, pid) = *rng.pick(&held);
+        ops.push(Op::WithdrawPath { fam: f, pfx: p, pid });
+    }
+    let mut fams = [0usize, 1];
+    rng.shuffle(&mut fams);
+    for f in fams {
+        if rng.chance(5, 6) {
+            ops.push(Op::Eor { fam: f });
+        }
+    }
+    if rng.chance(1, 2) {
+        ops.push(Op::Drop { how: gen_drop(rng, layer) });
+        ops.push(Op::ExpireRestart);
+        for f in 0..2 {
+            if rng.bool() {
+                ops.push(Op::ExpireLlgr { fam: f });
+            }
+        }
+    }
+    (cfg, ops)
+}
+
+fn gen_ops(rng: &mut Rng, layer: u8, len: usize, addpath: bool) -> Vec<Op> {
+    let raw = gen_ops_plain(rng, layer, len);
+    if !addpath {
+        return raw;
+    }
+    // Add-Path peer: path ids 0..2 and a rank per announcement; withdrawals name a path id
+    raw.into_iter()
+        .map(|o| match o {
+            Op::Announce { fam, pfx, kind } => Op::AnnouncePath {
+                fam,
+                pfx,
+                pid: rng.below(3) as u32,
+                rank: rng.below(3) as u8,
+                kind,
+            },
+            Op::Withdraw { fam, pfx } => Op::WithdrawPath {
+                fam,
+                pfx,
+                pid: rng.below(3) as u32,
+            },
+            o => o,
+        })
+        .collect()
+}
+
+fn gen_ops_plain(rng: &mut Rng, layer: u8, len: usize) -> Vec<Op> {
     let mut ops = Vec::new();
     let first = gen_spec(rng, None);
     let mut last_spec = first;
@@ -3023,6 +3294,7 @@ fn exh_configs() -> Vec<(&'static str, LocalCfg, CapSpec)> {
         llgr,
         shards: 2,
         prefix_limit: false,
+        addpath: false,
     };
     vec![
         (
@@ -3079,10 +3351,41 @@ fn exh_configs() -> Vec<(&'static str, LocalCfg, CapSpec)> {
                 llgr: 0,
             },
         ),
+        (
+            // Add-Path receive: several path ids per prefix, re-announced in part by the next session
+            "gr-all+llgr-all+addpath",
+            LocalCfg {
+                addpath: true,
+                ..c(0b11, false, 0b11)
+            },
+            CapSpec {
+                mp: 0b11,
+                gr: Some((0b11, false, 0)),
+                llgr: 0b11,
+            },
+        ),
     ]
 }
 
-fn exh_prelude(spec: &CapSpec) -> Vec<Op> {
+fn exh_prelude(spec: &CapSpec, addpath: bool) -> Vec<Op> {
+    let mut v = exh_prelude_plain(spec);
+    if addpath {
+        // siblings of v4/0 (path id 0 has rank 2): a middle one and a worst one carrying NO_LLGR;
+        // a sibling of v6/0 of equal rank
+        let at = v.len() - 2;
+        let extra = vec![
+            Op::AnnouncePath { fam: 0, pfx: 0, pid: 1, rank: 1, kind: AttrKind::Plain },
+            Op::AnnouncePath { fam: 0, pfx: 0, pid: 2, rank: 0, kind: AttrKind::NoLlgr },
+            Op::AnnouncePath { fam: 1, pfx: 0, pid: 1, rank: 2, kind: AttrKind::Plain },
+        ];
+        for (k, o) in extra.into_iter().enumerate() {
+            v.insert(at + k, o);
+        }
+    }
+    v
+}
+
+fn exh_prelude_plain(spec: &CapSpec) -> Vec<Op> {
     vec![
         Op::Connect {
             spec: *spec,
@@ -3212,6 +3515,14 @@ fn exh_alphabet(spec: &CapSpec) -> Vec<(&'static str, Vec<Op>)> {
         ("late-T", vec![Op::LateRestart]),
         ("late-L-v4", vec![Op::LateLlgr { fam: 0 }]),
         ("late-L-v6", vec![Op::LateLlgr { fam: 1 }]),
+        // Add-Path sessions only: re-announce low-ranked path ids (the stale siblings rank first)
+        (
+            "A-low",
+            vec![
+                Op::AnnouncePath { fam: 0, pfx: 0, pid: 2, rank: 0, kind: AttrKind::Plain },
+                Op::AnnouncePath { fam: 1, pfx: 0, pid: 1, rank: 0, kind: AttrKind::Plain },
+            ],
+        ),
     ]
 }
 
@@ -3275,7 +3586,7 @@ fn evaluate(
         }
     };
     let tail_applied = out.applied[tail_from.min(ops.len())..].iter().any(|a| *a);
-    if tail_from > 0 && !tail_applied && out.herr.is_none() {
+    if tail_from > 0 && !tail_applied && out.herr.is_none() && out.findings.is_empty() {
         // enumeration: the last letter was not applicable, the sequence equals a shorter one
         return (false, false);
     }
@@ -3283,6 +3594,9 @@ fn evaluate(
     rep.evals(out.judged);
     for (k, v) in &out.stats.c {
         rep.count_n(k, *v);
+        if layer == 2 && k == "addpath:destinations-with-fresh-and-stale-siblings-at-purge" {
+            rep.count_n("l2:addpath:mixed-sibling-purges", *v);
+        }
     }
     rep.count_n(&format!("{}:steps-judged", lname), out.judged);
     if let Some(e) = &out.herr {
@@ -3401,6 +3715,7 @@ fn calibrate(ctl: &Ctl, rep: &mut Report) -> bool {
         llgr,
         shards: 1,
         prefix_limit: false,
+        addpath: false,
     };
     let s_gr = CapSpec {
         mp: 0b11,
@@ -3548,7 +3863,7 @@ fn part_l1x(ctl: &Ctl, rep: &mut Report) {
     // session, so only drop / announce / End-of-RIB letters apply in first position
     'outer: for (cname, cfg, spec) in exh_configs() {
         let alpha = exh_alphabet(&spec);
-        let prelude = exh_prelude(&spec);
+        let prelude = exh_prelude(&spec, cfg.addpath);
         let run_seq = |rep: &mut Report, seq: &[usize]| -> (bool, bool) {
             let mut ops = prelude.clone();
             let mut tail_from = 0;
@@ -3653,7 +3968,7 @@ fn part_l1c(ctl: &Ctl, rep: &mut Report) {
         let alpha = exh_alphabet(&spec);
         let idx = |name: &str| alpha.iter().position(|(n, _)| *n == name).expect("letter");
         for (kname, letters) in first_cycles.iter() {
-            let mut prefix = exh_prelude(&spec);
+            let mut prefix = exh_prelude(&spec, cfg.addpath);
             for l in letters.iter() {
                 prefix.extend(alpha[idx(l)].1.iter().cloned());
             }
@@ -3736,11 +4051,14 @@ fn part_random(ctl: &Ctl, rep: &mut Report, layer: u8) {
         } else if profile < 6 {
             rep.count(&format!("{}:profile:two-cycles", lname));
             gen_two_cycles(&mut rng, layer)
+        } else if profile < 8 {
+            rep.count(&format!("{}:profile:addpath-cycle", lname));
+            gen_addpath_cycle(&mut rng, layer)
         } else {
             rep.count(&format!("{}:profile:free", lname));
             let cfg = gen_cfg(&mut rng, layer);
             let len = rng.range(3, if layer == 1 { 24 } else { 14 }) as usize;
-            let ops = gen_ops(&mut rng, layer, len);
+            let ops = gen_ops(&mut rng, layer, len, cfg.addpath);
             (cfg, ops)
         };
         let seed = rng.next_u64();
@@ -4107,6 +4425,7 @@ async fn run_limit_history(
         llgr: 0,
         shards,
         prefix_limit: false,
+        addpath: false,
     };
     let mut w = match L2World::new_limit(&base, listener, 1, Some(cfg)).await {
         Ok(w) => w,
